@@ -37,19 +37,39 @@ import (
 
 // ---- specs --------------------------------------------------------------------------------------------------
 
+// Outcome is what one plugin invocation does: it overruns, or it returns a PAIR (response, error).
+// 0-4 keep their historical numbers; 5-9 are the remaining pairs.
 type Outcome int
 
 const (
-	OOk Outcome = iota
-	OErr
-	OPerm
-	OWrongType
-	OOverrun
+	OOk        Outcome = iota // (good response, no error)
+	OErr                      // (nil, transient error)
+	OPerm                     // (nil, permanent error)
+	OWrongType                // (wrong-typed response, no error)
+	OOverrun                  // still running at the deadline
+	ONilOk                    // (nil, no error)
+	OGoodTrans                // (good response, transient error)
+	OGoodPerm                 // (good response, permanent error)
+	OBadTrans                 // (wrong-typed response, transient error)
+	OBadPerm                  // (wrong-typed response, permanent error)
+	nOutcomes
 )
 
-var outcomeName = [...]string{"OOk", "OErr", "OPerm", "OWrongType", "OOverrun"}
+var outcomeName = [...]string{"OOk", "OErr", "OPerm", "OWrongType", "OOverrun", "(ORet PNil PNoErr)", "(ORet PGood PTrans)",
+	"(ORet PGood PPerm)", "(ORet PBad PTrans)", "(ORet PBad PPerm)"}
 
-func isFinal(o Outcome) bool { return o == OOk || o == OPerm || o == OWrongType }
+// response kind (0 nil, 1 good, 2 bad) and error kind (0 none, 1 transient, 2 permanent) of a returning outcome
+var outcomeResp = [...]int{1, 0, 0, 2, 0, 0, 1, 1, 2, 2}
+var outcomeErr = [...]int{0, 1, 2, 0, 1, 0, 1, 2, 1, 2}
+
+func isFinal(o Outcome) bool {
+	if o == OOverrun {
+		return false
+	}
+	return outcomeResp[o] == 2 || outcomeErr[o] != 1
+}
+
+func isOk(o Outcome) bool { return o == OOk || o == ONilOk }
 
 type ActSpec struct {
 	Path      string    `json:"path"`
@@ -72,10 +92,11 @@ func (a *ActSpec) planned(k int) Outcome {
 // to run (a failed action stops its sequence); nothing is compared against it.
 func (a *ActSpec) predicted() bool {
 	for k := 0; k <= a.Retries; k++ {
-		switch a.planned(k) {
-		case OOk:
+		o := a.planned(k)
+		if isOk(o) {
 			return true
-		case OPerm, OWrongType:
+		}
+		if isFinal(o) {
 			return false
 		}
 	}
@@ -155,24 +176,33 @@ func shuffle[T any](r *core.Rand, xs []T) {
 	}
 }
 
-// exhaustive: all 5^4 scripts of length 4 x retries 0..4 (shorter scripts are their prefixes as far as an
-// action with retries <= 3 looks). mode 1: every combination once, as a sequence action or as a check action
-// (decided by the seed); mode 2: every combination in both kinds.
-func exhaustivePlans(root *core.Rand, mode int) []*PlanSpec {
+// exhaustive: all 10^k scripts of length k x retries 0..4 (shorter scripts are their prefixes as far as an
+// action with fewer retries looks). both = false: every combination once, as a sequence action or as a check
+// action (decided by the seed); both = true: every combination in both kinds.
+func exhaustiveCount(k int) int {
+	n := 5
+	for i := 0; i < k; i++ {
+		n *= int(nOutcomes)
+	}
+	return n
+}
+
+func exhaustivePlans(root *core.Rand, k int, both bool) []*PlanSpec {
 	r := root.Fork(0xe5)
 	var seqOK, seqBad, chkOK, chkBad []*ActSpec
-	for c := 0; c < 3125; c++ {
+	total := exhaustiveCount(k)
+	for c := 0; c < total; c++ {
 		mk := func() *ActSpec {
 			x := c / 5
-			a := &ActSpec{Retries: c % 5, Combo: c, Dflt: Outcome((c*7 + 3) % 5)}
-			for i := 0; i < 4; i++ {
-				a.Script = append(a.Script, Outcome(x%5))
-				x /= 5
+			a := &ActSpec{Retries: c % 5, Combo: c, Dflt: Outcome((c*7 + 3) % int(nOutcomes))}
+			for i := 0; i < k; i++ {
+				a.Script = append(a.Script, Outcome(x%int(nOutcomes)))
+				x /= int(nOutcomes)
 			}
 			return a
 		}
 		asSeq, asChk := true, true
-		if mode == 1 {
+		if !both {
 			asSeq = r.Intn(2) == 0
 			asChk = !asSeq
 		}
@@ -279,7 +309,7 @@ func exhaustivePlans(root *core.Rand, mode int) []*PlanSpec {
 	return plans
 }
 
-var randWeights = []int{35, 25, 10, 10, 20}
+var randWeights = []int{25, 15, 7, 6, 15, 6, 10, 5, 6, 5}
 
 func randomAct(r *core.Rand) *ActSpec {
 	a := &ActSpec{Retries: r.Intn(5), Combo: -1, Dflt: Outcome(r.Weighted(randWeights))}
@@ -295,10 +325,10 @@ func randomAct(r *core.Rand) *ActSpec {
 		}
 		for i := 0; i < k; i++ {
 			if isFinal(a.Script[i]) {
-				a.Script[i] = []Outcome{OErr, OOverrun}[r.Intn(2)]
+				a.Script[i] = []Outcome{OErr, OOverrun, OGoodTrans}[r.Intn(3)]
 			}
 		}
-		a.Script[k] = OOk
+		a.Script[k] = []Outcome{OOk, OOk, ONilOk}[r.Intn(3)]
 	}
 	return a
 }
@@ -591,22 +621,28 @@ func behave(ctx context.Context, p *hplug.Plugin, req any) (any, *plugins.Error)
 	if k >= 90 {
 		code = 189
 	}
-	switch eff {
-	case OOk:
-		return hplug.Resp{Path: rq.Path, Value: int64(k)}, nil
-	case OErr:
-		return nil, &plugins.Error{Code: code, Message: "scripted transient error"}
-	case OPerm:
-		return nil, &plugins.Error{Code: code, Message: "scripted permanent error", Permanent: true}
-	case OWrongType:
-		return hplug.AltResp{Echo: "a response of another type"}, nil
-	default:
+	if eff == OOverrun {
 		msg := "returned after the deadline"
 		if err := ctx.Err(); err != nil {
 			msg += ": " + err.Error()
 		}
 		return nil, &plugins.Error{Code: code, Message: msg}
 	}
+	var resp any
+	switch outcomeResp[eff] {
+	case 1:
+		resp = hplug.Resp{Path: rq.Path, Value: int64(k)}
+	case 2:
+		resp = hplug.AltResp{Echo: "a response of another type"}
+	}
+	var perr *plugins.Error
+	switch outcomeErr[eff] {
+	case 1:
+		perr = &plugins.Error{Code: code, Message: "scripted transient error"}
+	case 2:
+		perr = &plugins.Error{Code: code, Message: "scripted permanent error", Permanent: true}
+	}
+	return resp, perr
 }
 
 // ---- building and running plans (child side) ------------------------------------------------------------------
@@ -928,7 +964,8 @@ func acaseTerm(a *ActSpec, o *ActObs, partial bool) string {
 func main() {
 	child := flag.Bool("child", false, "internal: run a batch read from stdin")
 	n := flag.Int("n", 60, "number of random plans")
-	exh := flag.Int("exh", 1, "bounded-exhaustive family: 0 = off, 1 = every combination once, 2 = as sequence and as check action")
+	exh := flag.Int("exh", 3, "bounded-exhaustive family: script length k (all 10^k scripts x retries 0-4); 0 = off")
+	both := flag.Bool("both", false, "every combination as a sequence action AND as a check action (default: one of the two, by the seed)")
 	par := flag.Int("par", 6, "child processes in parallel")
 	batch := flag.Int("batch", 6, "plans per child (run concurrently on one Workstream)")
 	only := flag.String("only", "", "run only the plan with this id (replay)")
@@ -948,7 +985,7 @@ func main() {
 	root := core.NewRand(seed)
 	var specs []*PlanSpec
 	if *exh > 0 {
-		specs = append(specs, exhaustivePlans(root, *exh)...)
+		specs = append(specs, exhaustivePlans(root, *exh, *both)...)
 	}
 	specs = append(specs, randomPlans(root, *n)...)
 	if *only != "" {
